@@ -1,6 +1,7 @@
 CONSTANTS LOCSYMSIGHT = 3
-          MaxLen = 5 MaxDepth = 2 Focus = "stack" Devs = {} CaseModes = {FALSE}
+          MaxLen = 5 MaxDepth = 2 Focus = "stack" CaseModes = {FALSE}
+          DevSets = {{}, {"popv_const", "dd_same_name", "empty_macro_nested"}} CheckConst = FALSE
 SPECIFICATION Spec
-INVARIANTS LookupAgreesWithManual ExtraPassAgrees ConvergesInTwo StackMirrorsText
+INVARIANTS LookupAgreesWithManual ExtraPassAgrees ConvergesInTwo StackMirrorsText StacksNonEmpty
 PROPERTIES ConstNeverChanges RedefIsError
 CHECK_DEADLOCK FALSE
